@@ -212,10 +212,16 @@ def run_case(ctx, case, rng):
       ctx.count('interpreter_comparisons')
       for k in o1:
         if o1[k].dtype != o2[k].dtype or o1[k].tobytes() != o2[k].tobytes():
-          o1b, _, _ = interp.quant_run(small.out, s['key'], x)
-          if o1b[k].tobytes() != o1[k].tobytes():
-            ctx.count('ordinary_form_not_reproducible_skipped')   # kernel reading uninitialised memory (KF-DWCONV-DRQ-TENSORWISE)
+          # a kernel reading uninitialised memory (KF-DWCONV-DRQ-TENSORWISE) gives different values per interpreter instance: the
+          # mechanism is read off the model, and the ordinary form is re-run a few times as well
+          if common.has_hybrid_tensorwise_dwconv(small.out):
+            ctx.count('nonreproducible_kernel_pattern_skipped')
             return
+          for _ in range(4):
+            o1b, _, _ = interp.quant_run(small.out, s['key'], x)
+            if o1b[k].tobytes() != o1[k].tobytes():
+              ctx.count('ordinary_form_not_reproducible_skipped')
+              return
           ctx.violation('interpreter_outputs_differ', {}, dict(base, output=k))
           return
   ctx.risky('interp.both_forms', go, common.risky_info(small, spec, datasets, {'rules': small.accepted}))
